@@ -64,6 +64,7 @@ THEOREMS = [
     "Verif.C06.regular_ranges",
     "Verif.C06.regular_establishes",
     "Verif.C06.regular_row_step",
+    "Verif.C06.slice_then_downsample",
 ]
 RULE = (
     "kymographs and scans built from generated info waves (P<=5 pixels, <=6 lines/frames, k<=3 samples per pixel, "
@@ -1016,7 +1017,7 @@ def cases(tier, rng):
         r2 = rng.fork("k2")
         # pairs: the user-style items (hundreds of bound combinations at level one) enter with a sample
         items = [o for o in alpha if o[0] in ("get", "getstep", "scalar")]
-        alpha2 = [o for o in alpha if o[0] not in ("get", "getstep", "scalar")] + r2.sample(items, min(len(items), 25))
+        alpha2 = [o for o in alpha if o[0] not in ("get", "getstep", "scalar")] + r2.sample(items, min(len(items), 15))
         a1 = alpha2 if not quick else r2.sample(alpha, min(len(alpha), 40))
         a2 = kymo_alphabet(obj, rng=r2, full=False)
         if quick:
@@ -1050,7 +1051,7 @@ def cases(tier, rng):
         r2 = rng.fork("s2")
         light = quick or oi >= n_full
         items = [o for o in alpha if o[0] == "get"]
-        alpha2 = [o for o in alpha if o[0] != "get"] + r2.sample(items, min(len(items), 16))
+        alpha2 = [o for o in alpha if o[0] != "get"] + r2.sample(items, min(len(items), 10))
         a1 = alpha2 if not light else r2.sample(alpha, min(len(alpha), 40 if oi < n_full else 15))
         a2 = alpha2 if not light else r2.sample(alpha, min(len(alpha), 25 if oi < n_full else 12))
         for o1, o2 in itertools.product(a1, a2):
